@@ -253,8 +253,21 @@ def rule_alloc(chk, prefix="C02"):
     # `previous = self._last_child` read before the store is the same value under another name (matching only)
     snap = {k_: v_ for k_, v_ in X.single_assignments(ntl).items() if common.is_self_attr(v_, "_last_child")}
     snap_ok = all(cfg.precedes([x for x in cfg.live if isinstance(x.ast, ast.Assign) and isinstance(x.ast.targets[0], ast.Name) and x.ast.targets[0].id == k_], stores)[0] for k_ in snap)
+    # the stored value may be computed into a local on the two arms and stored once afterwards:
+    # `if last: nxt = last.next_sibling() else: nxt = level.child()`; `self._last_child = nxt`; `return nxt`
+    arms = []
+    stored_names = set()
     for n in list(stores):
-        v = X.inline(ntl, n.ast.value, snap) if snap_ok else n.ast.value
+        v0 = n.ast.value
+        if isinstance(v0, ast.Name) and v0.id not in snap:
+            src = [x for x in cfg.live if isinstance(x.ast, ast.Assign) and len(x.ast.targets) == 1 and isinstance(x.ast.targets[0], ast.Name) and x.ast.targets[0].id == v0.id]
+            if src and all(isinstance(x.ast.value, ast.Call) for x in src) and cfg.precedes(src, [n])[0]:
+                stored_names.add(v0.id)
+                arms += [(x, x.ast.value) for x in src]
+                continue
+        arms.append((n, v0))
+    for n, v0 in arms:
+        v = X.inline(ntl, v0, snap) if snap_ok else v0
         if isinstance(v, ast.IfExp):
             pol = _none_polarity(v.test)
             first, nxt = (v.body, v.orelse) if pol == 1 else (v.orelse, v.body)
@@ -289,6 +302,8 @@ def rule_alloc(chk, prefix="C02"):
         else:
             problems.append("counter set to %s, neither <own level>.child() nor <last>.next_sibling()" % unparse(v)[:60])
     for r in common.returns_of(cfg):
+        if isinstance(r.ast.value, ast.Name) and r.ast.value.id in stored_names and cfg.precedes(stores, [r])[0]:
+            continue  # the very value that was just stored
         if not (r.ast.value is not None and common.is_self_attr(r.ast.value, "_last_child")):
             problems.append("allocator returns %s, not the position just stored" % (r.ast.value is not None and unparse(r.ast.value)))
     chk.req(not problems, "%s.alloc" % prefix, "Action._nextTaskLevel:advances-by-one", chk.where(ntl),
